@@ -579,10 +579,12 @@ func (dsc *dataStoreCommand) getIds(keyNames ...string) (ids []uint64) {
 func (dsc *dataStoreCommand) bitfieldWrite(keyName string, ops []*bitfieldOp) (output respValue) {
 	// find the byte array minimum length
 	length := 0
+	hasWrite := false
 	for _, op := range ops {
 		if op.op == BF_GET {
 			continue
 		}
+		hasWrite = true
 		n := op.endOffset
 		if n > length {
 			length = n
@@ -624,7 +626,9 @@ func (dsc *dataStoreCommand) bitfieldWrite(keyName string, ops []*bitfieldOp) (o
 	}
 
 	results := make([]any, 0, len(ops))
-	changed := false
+	// a command with a write operation makes the value long enough before it
+	// looks at overflow, so the key exists (zero-filled) even if every write fails
+	changed := hasWrite && (!exists || len(strBytes) != len(sk.getStringBytes()))
 
 	for _, op := range ops {
 		bits := op.width
